@@ -54,6 +54,9 @@ type Net struct {
 	// Decide, when set, overrides the parameter-based schedule. It must be a
 	// pure function of its arguments.
 	Decide func(dir, idx int, pkt []byte, now time.Duration) (Decision, bool)
+	// OnSend, when set, is told about every packet: direction, bytes, time of sending and the times at which copies
+	// will be delivered (none if dropped), all relative to the creation of the network. Called without locks held.
+	OnSend func(dir int, pkt []byte, sent time.Duration, deliveries []time.Duration)
 	// Log of the first LogCap packets
 	Log    []Packet
 	LogCap int
@@ -215,6 +218,13 @@ func (e *End) WriteMsg(b []byte) error {
 		}
 	}
 	n.mu.Unlock()
+	if n.OnSend != nil {
+		var rel []time.Duration
+		for _, at := range times {
+			rel = append(rel, at.Sub(n.start))
+		}
+		n.OnSend(e.dir, pkt, now, rel)
+	}
 	for _, at := range times {
 		wait := time.Until(at)
 		if wait <= 0 {
